@@ -508,6 +508,42 @@ def run(ck):
         n, h1, res, model = run_stream(ck, tally, "keyword", fmt, sorted(texts))
         nontrivial += sum(1 for r, a in res if r[0] != "ok")
         dist.setdefault(fmt, {})["keyword"] = dict(h1, _keywords=len(G.source_keywords(fmt)), _run=n)
+    # 4c. the source of a tied reader changed and names record words the model does not know: documents that use ALL the new
+    # record kinds together (each with element names / numbers as arguments), combined with shortened or renamed atom lines
+    for fmt in ("discus", "pdffit"):
+        if fmt not in tie_broken_fmts or not good[fmt]:
+            continue
+        newkw = [w for w in G.source_keywords(fmt) if re.fullmatch(r"[a-z][a-z_]{2,12}", w) and w not in A.KW
+                 and w not in ("sphere", "stepcut", "pdffit", "the", "not", "and", "for", "file", "format", "line", "read", "atoms", "is", "in")]
+        if not newkw:
+            continue
+        texts = set()
+        for name, txt in sorted(good[fmt], key=lambda nt: len(nt[1]))[:3]:
+            lines = txt.split("\n")
+            ia = next((i for i, l in enumerate(lines) if l.split()[:1] == ["atoms"]), None)
+            if ia is None:
+                continue
+            els = sorted({l.split()[0] for l in lines[ia + 1:] if l.split() and not l.startswith("#")})
+            argsets = [" ".join(els), ", ".join(els), " ".join(els[:1]), "1 2 3", " ".join("0.5" for _ in els), ", ".join("0.5" for _ in els[:1]), ""]
+            for order in (newkw, newkw[::-1]):
+                for a1 in argsets:
+                    for a2 in argsets:
+                        hdr = [("%s %s" % (w, a1 if k % 2 == 0 else a2)).rstrip() for k, w in enumerate(order)]
+                        base = lines[:ia] + hdr + lines[ia:]
+                        texts.add("\n".join(base))
+                        ib = ia + len(hdr) + 1
+                        for j in range(ib, min(len(base), ib + 4)):
+                            ws = base[j].split()
+                            for keep in (4, 3, 2, 1):
+                                if len(ws) > keep:
+                                    texts.add("\n".join(base[:j] + [" ".join(ws[:keep])] + base[j + 1:]))
+                            if ws:
+                                texts.add("\n".join(base[:j] + [" ".join(["Xx"] + ws[1:])] + base[j + 1:]))
+                                texts.add("\n".join(base[:j] + [" ".join(["Xx"] + ws[1:4])] + base[j + 1:]))
+        texts = sorted(texts)[:4000]
+        n, h1, res, model = run_stream(ck, tally, "combo", fmt, texts)
+        nontrivial += sum(1 for r, a in res if r[0] != "ok")
+        dist.setdefault(fmt, {})["combo"] = dict(h1, _new_keywords=newkw, _run=n)
     # 5. (b) random abstract documents rendered to text, and multi-fault corruptions
     nrand = QUICK_RANDOM if ck.tier == "quick" else 20000 // 6
     for fmt in G.FORMATS:
